@@ -511,7 +511,7 @@ func ruleX2(c *Ctx) {
 				case *ssa.Phi:
 					for i, ed := range x.Edges {
 						if _, isLen := ed.(*ssa.Call); isLen && der[ed] {
-							uses = append(uses, use{x, b.Preds[i], "assigned to " + x.Comment})
+							uses = append(uses, use{x, b.Preds[i], "assigned to " + phiName(x)})
 						}
 					}
 				case *ssa.Return:
